@@ -247,4 +247,48 @@ PotRec(m) ==
     nmono |-> TLCEval([sh \in BOOLEAN |-> <<Len(S1(m)), Len(S1c(m, sh)), Len(S2(m))>>]),
     sym   |-> SymName(m) ]
 PotTable == TLCEval([m \in Models |-> PotRec(m)])
+
+(***************************************************************************)
+(* Histories.  The three model functions and the selector are FUNCTIONS of *)
+(* their call: the triple a call returns is determined by that call alone  *)
+(* (distance, energy scale, length scale, cut-off and shift of the         *)
+(* instance it is made on; the model; the scalar parameters handed in).    *)
+(* A triple that the caller still holds therefore keeps its value whatever *)
+(* is called afterwards, on whichever instance, directly or through the    *)
+(* selector ("the first and second radial derivatives RETURNED ... are     *)
+(* exactly ds/dr and d2s/dr2" is a statement about every returned triple,  *)
+(* not only about the one returned last).                                  *)
+(*                                                                         *)
+(* A call is a record                                                      *)
+(*   [inst |-> [r, eps, sigma, rc, shift], model, via, n, A, alpha]        *)
+(* (via = "method" | "caller"); a session is a sequence of calls; `held`   *)
+(* is the sequence of the results handed out so far - none is released.    *)
+(* A result is stated as (S1, S1c, S2)(model, shift) under the bindings of *)
+(* its own call.                                                           *)
+(***************************************************************************)
+PCallResult(call) ==
+  [ model |-> call.model, shift |-> call.inst.shift,
+    bind  |-> [r |-> call.inst.r, eps |-> call.inst.eps, sigma |-> call.inst.sigma, rc |-> call.inst.rc,
+               n |-> call.n, A |-> call.A, alpha |-> call.alpha] ]
+\* one step of a session: the new result is appended, nothing else changes
+PCallStep(calls, held, calls2, held2, c) ==
+  calls2 = Append(calls, c) /\ held2 = Append(held, PCallResult(c))
+\* clause: every held triple is the result of its own call
+PHeldAreResults(calls, held) ==
+  Len(held) = Len(calls) /\ \A k \in 1..Len(calls) : held[k] = PCallResult(calls[k])
+\* clause (on steps): a later call leaves the triples handed out earlier as they were
+PHeldKept(held, held2) ==
+  Len(held2) >= Len(held) /\ \A k \in 1..Len(held) : held2[k] = held[k]
+\* the documented domain of a call (same limits as the parameter grid of MC_PairPot: Hertz with a
+\* non-integer exponent only inside contact, never exactly at contact, and - when shifting - only
+\* with the cut-off at sigma, where the documented s'(r_c) = 0 is the derivative)
+PCallInDomain(call) ==
+  LET i == call.inst IN
+  /\ RLt(RZero, i.r) /\ RLt(RZero, i.sigma) /\ RLt(RZero, i.rc)
+  /\ call.model \in Models /\ call.via \in {"method", "caller"}
+  /\ RLt(RZero, call.n) /\ RLt(<<1, 1>>, call.alpha)
+  /\ (call.model = "harmonic_hertz" =>
+        /\ ~REq(i.r, i.sigma)
+        /\ (call.alpha[2] = 1 \/ RLt(i.r, i.sigma))
+        /\ (i.shift => REq(i.rc, i.sigma)))
 =============================================================================
